@@ -60,6 +60,8 @@ def pick_universe(rng, buckets, allkeys):
         ks[0] = b""
     if rng.random() < 0.2:
         ks[-1] = bytes(rng.choice(b"abcdefgh/~ \xc3\xa9") for _ in range(200))
+    if rng.random() < 0.25 and len(ks) > 2:
+        ks[1] = rng.choice([b'q"uote', b"back\\slash", b"ctl\x01\n", b"sl/ash", b"\xc3\xa9\"\t"])  # names that must be escaped when serialized
     return list(dict.fromkeys(ks))
 
 
